@@ -16,6 +16,7 @@ import itertools
 import json
 from datetime import datetime
 
+from vp.core import reraise_harness_fault as core_reraise
 from vp.core import Check, Failure, drive, load_corpus
 
 META = dict(
@@ -100,6 +101,18 @@ def _split_csv(text: str):
     return rows[k + 1], rows[k + 2:]
 
 
+def _impl_times(plot_log) -> list:
+    """Row times of the export. The CSV has no time column; the generator's own helper is used when it exists under
+    its current private name, otherwise (a rename is no business of the property) the times are what the rows are
+    defined over: the distinct recorded tick times, ascending. The number of data rows is checked against them."""
+    from openpectus.aggregator import csv_generator
+    fn = getattr(csv_generator, "_get_tick_times", None)
+    if callable(fn):
+        return fn(plot_log)
+    entries = plot_log.entries.values() if isinstance(plot_log.entries, dict) else plot_log.entries
+    return sorted({v.tick_time for e in entries for v in e.values})
+
+
 def export(case):
     """Real code: (tick times as returned by _get_tick_times, header row, data rows parsed back from the CSV text).
     DTO cases call csv_generator on DTOs built by the harness; route cases were run through the aggregator (see below)."""
@@ -109,7 +122,7 @@ def export(case):
             raise RuntimeError(r["error"])
         return r["times"], r["header"], r["rows"]
     from openpectus.aggregator import csv_generator
-    times = csv_generator._get_tick_times(_plot_log(case))
+    times = _impl_times(_plot_log(case))
     text = csv_generator.generate_csv_string(_plot_log(case), _recent_run()).getvalue()
     header, rows = _split_csv(text)
     return times, header, rows
@@ -192,7 +205,7 @@ def materialise_route(case) -> dict:
         with h.database.create_scope():
             csv_dto = recent_runs.get_recent_run_csv_json(set(), RUN_ID)
             model = PlotLogRepository(h.database.scoped_session()).get_plot_log(RUN_ID)
-            times = csv_generator._get_tick_times(Dto.PlotLog.model_validate(model))
+            times = _impl_times(Dto.PlotLog.model_validate(model))
         header, rows = _split_csv(csv_dto.csv_content)
         res.update(times=times, header=header, rows=rows)
     except Exception as e:  # noqa: BLE001  (no plot log rows -> 404, ...)
@@ -235,6 +248,7 @@ def oracle(case) -> Failure | None:
     except Exception as e:  # noqa: BLE001
         if "route" in case and not any(case["entries"]):
             return None     # nothing was persisted: the route answers 404, there is no export to judge
+        core_reraise(e)
         return Failure(f"export-raises-{type(e).__name__}", case, f"the export raised {e!r}")
     exp = expected_rows(case)
     n = len(case["entries"])
